@@ -988,6 +988,8 @@ non-trivial = accepted literal; distinct = distinct canonical token streams".to_
 	flush(cx, &mut b);
 
 	// every scalar value
+	let thorough = cx.thorough();
+	let sweep_off = (cx.seed % 2) as u32;
 	let mut bc = Batch{class: "character literal (every scalar)", cases: Vec::new()};
 	let mut bs = Batch{class: "string with one raw character (every scalar)", cases: Vec::new()};
 	let mut bu = Batch{class: "string with one \\u{hex} (every scalar)", cases: Vec::new()};
@@ -1000,7 +1002,8 @@ non-trivial = accepted literal; distinct = distinct canonical token streams".to_
 		t.extend_from_slice(&raw);
 		t.push(b'\'');
 		push(cx, &mut bc, t, if printable && c != '\\' {Expect::Num(v as u64)} else {Expect::Reject});
-		if c != '"' && c != '\\'
+		// quick tier: every second scalar (offset rotating with the seed) in the raw-in-a-string sweep; complete in the thorough tier
+		if c != '"' && c != '\\' && (thorough || v < 0x800 || (v + sweep_off) % 2 == 0)
 		{
 			let mut t = vec![b'"'];
 			t.extend_from_slice(&raw);
@@ -1026,6 +1029,23 @@ non-trivial = accepted literal; distinct = distinct canonical token streams".to_
 	push(cx, &mut be, b"\"\"".to_vec(), Expect::Str(vec![]));
 	push(cx, &mut be, b"'''".to_vec(), Expect::Num(39));
 	push(cx, &mut be, b"'\"'".to_vec(), Expect::Num(34));
+	// a backslash followed by a NON-ASCII scalar is never an escape: every scalar whose low byte is one of the escape letters (or 0, u, x),
+	// and random other scalars, in character and in string literals
+	{
+		let mut bn = Batch{class: "backslash + non-ASCII scalar", cases: Vec::new()};
+		let mut scalars: Vec<u32> = Vec::new();
+		for low in [b't', b'n', b'r', b'"', b'\'', b'\\', b'0', b'u', b'x'] {for hi in 1..0x1100u32 {scalars.push(hi << 8 | low as u32);}}
+		for _ in 0..if thorough {40_000} else {4_000} {scalars.push(random_scalar(&mut rng, 0x80) as u32);}
+		for v in scalars
+		{
+			let Some(c) = char::from_u32(v) else {continue;};
+			let raw = utf8(c);
+			push(cx, &mut bn, [&b"'\\"[..], &raw, b"'"].concat(), Expect::Reject);
+			push(cx, &mut bn, [&b"\"\\"[..], &raw, b"\""].concat(), Expect::Reject);
+			if v % 16 == 3 {push(cx, &mut bn, [&b"\"a\\"[..], &raw, b"{41}b\""].concat(), Expect::Reject);}
+		}
+		flush(cx, &mut bn);
+	}
 	// every other escape letter is unknown
 	for e in 0u8..=127
 	{
@@ -1298,6 +1318,75 @@ fn clone_section(cx: &mut Cx, rng: &mut Rng)
 	}
 }
 
+// element positions (`elems <hex> <offset,…>`): every statement the parser yields carries the position of its FIRST character — for a
+// directive that is the mark `.`, whatever separator text stands between the mark and the directive name
+fn check_elements(cx: &mut Cx, text: &[u8], offsets: &[usize])
+{
+	let input = format!("elems {} {}", hex(text), offsets.iter().map(|o| o.to_string()).collect::<Vec<_>>().join(","));
+	let want: Vec<(u32, u32)> = offsets.iter().filter_map(|o| position_of(text, *o)).collect();
+	let r = guarded(||
+	{
+		let mut v = Vec::new();
+		for el in trion::text::parse::Parser::new(text).take(text.len() + 2)
+		{
+			match el {Ok(e) => v.push(Ok((e.line, e.col))), Err(e) => {v.push(Err((e.line, e.col))); break;}}
+		}
+		v
+	});
+	cx.report.case(Some(&input));
+	cx.report.hit("element positions");
+	match r
+	{
+		Err(p) => cx.report.oracle_fail(input, format!("parser panics: {p}")),
+		Ok(got) =>
+		{
+			let got_ok: Vec<(u32, u32)> = got.iter().filter_map(|x| x.ok()).collect();
+			if got.iter().any(|x| x.is_err()) || got_ok != want
+			{
+				let k = got_ok.iter().zip(want.iter()).position(|(a, b)| a != b).unwrap_or(got_ok.len().min(want.len()));
+				cx.report.oracle_fail(input, format!("statement {} starts at {:?} (line, column), the parser reports {:?} (all: {got:?})", k + 1, want.get(k), got.get(k)));
+			}
+		},
+	}
+}
+
+fn element_positions(cx: &mut Cx, rng: &mut Rng)
+{
+	let seps: [&str; 12] = [" ", "\n", "\t", "\r\n", "  ", " // c\n", " /* \u{e9}\u{20ac} */ ", "/* a\n b */", "\n\n", "/**/", " /* /* n */ */ ", "\n\t// \u{1F600}\n"];
+	let inner: [&str; 9] = ["", "", " ", "\t", "/* c */", "\r\n", "\n", " /* \u{e9} */ ", "/*\n*/"];
+	let n = if cx.thorough() {60_000} else {6_000};
+	for _ in 0..n
+	{
+		let mut text = String::new();
+		let mut offs = Vec::new();
+		for _ in 0..rng.below(3) {text.push_str(*rng.pick(&seps));}
+		for k in 0..1 + rng.below(6)
+		{
+			offs.push(text.len());
+			match rng.below(6)
+			{
+				0 => text.push_str(&format!("lab{k}:")),
+				1 | 2 | 3 =>
+				{
+					// directive: mark, separator text, name, arguments
+					text.push('.');
+					text.push_str(*rng.pick(&inner));
+					text.push_str(*rng.pick(&["du8", "addr", "const", "dstr", "x9", "align"]));
+					text.push_str(*rng.pick(&[" 1", " x + 2", " \"s;\"", "", " a, 5", "\n0x10", " [R0 + 4]"]));
+					text.push_str(*rng.pick(&[";", " ;", "\n;"]));
+				},
+				_ =>
+				{
+					text.push_str(*rng.pick(&["NOP", "MOVS R0, 1", "B lab0", "LDR R1, [R2 + 4]", "PUSH {R0, LR}"]));
+					text.push_str(*rng.pick(&[";", " ;"]));
+				},
+			}
+			for _ in 0..1 + rng.below(2) {text.push_str(*rng.pick(&seps));}
+		}
+		check_elements(cx, text.as_bytes(), &offs);
+	}
+}
+
 fn run_c12(cx: &mut Cx)
 {
 	cx.report.rule = "every ordered pair of token classes (41 x 41: all punctuation, four radices, character literals incl. multi-byte, identifiers, \
@@ -1316,6 +1405,10 @@ end position; the spec Pos.of is compared with that oracle too. non-trivial = ev
 				let reply = cx.model.ask(&format!("lex tok {}", hex(&bytes)));
 				c12_check(cx, "replay", &bytes, &placed, &reply);
 			},
+			["elems", h, offs] if unhex(h).is_some() =>
+			{
+				check_elements(cx, &unhex(h).unwrap(), &offs.split(',').filter_map(|o| o.parse().ok()).collect::<Vec<usize>>());
+			},
 			["clone", h, k, p] if unhex(h).is_some() && k.parse::<usize>().is_ok() && p.parse::<usize>().is_ok() =>
 			{
 				check_clone(cx, &unhex(h).unwrap(), k.parse().unwrap(), p.parse().unwrap());
@@ -1328,6 +1421,7 @@ end position; the spec Pos.of is compared with that oracle too. non-trivial = ev
 	let atoms = separator_atoms();
 	let mut rng = cx.rng.fork();
 	clone_section(cx, &mut rng);
+	element_positions(cx, &mut rng);
 
 	let mut b = PosBatch{class: "token pair x separator", cases: Vec::new()};
 	for (ta, ka) in classes.iter()
